@@ -275,6 +275,9 @@ func (t encTagMap3) Tags() ([]encrypt.PointerTag, error) {
 		{Pointer: "/p~1ub", Classification: encrypt.PublicClassification},                                         // key "p/ub"
 		{Pointer: "/k~0tilde", Classification: encrypt.SensitiveClassification, Filter: encrypt.EncryptOperation}, // key "k~tilde"
 		{Pointer: "/t~01x", Classification: encrypt.SecretClassification, Filter: encrypt.HmacSha256Operation},    // key "t~1x"
+		// the empty string is a key like any other: "/creds/" is creds[""], "//k" is m[""]["k"]
+		{Pointer: "/creds/", Classification: encrypt.SecretClassification, Filter: encrypt.HmacSha256Operation},
+		{Pointer: "//k", Classification: encrypt.PublicClassification},
 	}, nil
 }
 
@@ -801,6 +804,13 @@ func (g *encGen) tagMap3(where string) encTagMap3 {
 		if g.want() {
 			m[k] = g.canary("redact", where+"{"+k+"}(untagged)")
 		}
+	}
+	if g.want() {
+		m["creds"] = map[string]interface{}{"": g.canary(g.treatFor("secret,hmac-sha256", true), where+"{creds}{}"), "user": g.canary("redact", where+"{creds}{user}(untagged)")}
+	}
+	if g.want() {
+		m[""] = map[string]interface{}{"k": g.canary("keep", where+"{}{k}"), "other": g.canary("redact", where+"{}{other}(untagged)")}
+		m["k"] = g.canary("redact", where+"{k}(untagged)")
 	}
 	return m
 }
@@ -1595,6 +1605,23 @@ func runEncrypt(rc *RunCtx, prop string) {
 				if _, has := out.Format("pre-existing"); !has {
 					rc.Failf("C10.format-table-lost", "", "formatted data the event carried before the filter is missing from the forwarded event")
 				}
+				// a second encrypt filter further down the pipeline (or the same one again) is given the event
+				// the first one forwarded: that event is ITS input now and must come out of the call as it went in
+				if wrapperMode == "aead" && tp.Choose(3, "chained-filter") == 0 {
+					f2 := f
+					if tp.Choose(2, "second-filter-node") == 0 {
+						f2 = &encrypt.Filter{Wrapper: cur.w, HmacSalt: cur.salt, HmacInfo: cur.info}
+					}
+					before := dumpJSON(out.Payload)
+					out2, _ := f2.Process(ctx, out)
+					if after := dumpJSON(out.Payload); after != before {
+						rc.Failf("C10.input-modified", "chained-filters", "an encrypt filter that was given the event another encrypt filter had forwarded changed it: %s became %s", truncate(before, 300), truncate(after, 300))
+					}
+					if out2 == out {
+						rc.Failf("C10.copy-not-private", "chained-filters", "an encrypt filter forwarded the very event object it was given")
+					}
+					simrt.Probe("encrypt.chained-filters")
+				}
 			}
 			if prop == "C09" && out != nil && out != ev {
 				// the original event goes on through the other pipelines of its type: what their formatters
@@ -1967,11 +1994,16 @@ func runEncryptRotateConc(rc *RunCtx) {
 	}
 	v1 := mk()
 	f := &encrypt.Filter{Wrapper: v1.w, HmacSalt: v1.salt, HmacInfo: v1.info}
+	// a second, unrelated filter (another pipeline's, with key material of its own) works next to the first:
+	// two filters share nothing
+	other := &encrypt.Filter{Wrapper: newAead(keyBytes(77), "other-filter-key"), HmacSalt: []byte("other-salt"), HmacInfo: []byte("other-info")}
+	otherKey := keyBytes(77)
 	type res struct {
 		in, out   *encLeaf
 		err       error
 		call, ret int64
 		perEvent  bool // sent with per-event key information (an event id, no salt / info of its own)
+		other     bool // processed by the second filter
 	}
 	var clock stampClock
 	var results []*res
@@ -1992,6 +2024,7 @@ func runEncryptRotateConc(rc *RunCtx) {
 			// (their digests are judged by the sequential scenario; here they put the filter's per-event paths
 			// next to a rotation for the race detector, and must come through without an error)
 			r.perEvent = tp.Choose(4, "per-event-info") == 0
+			r.other = !r.perEvent && tp.Choose(4, "second-filter") == 0
 			mine = append(mine, r)
 			results = append(results, r)
 		}
@@ -2004,7 +2037,11 @@ func runEncryptRotateConc(rc *RunCtx) {
 					// (the embedded leaf is not copied by copystructure: the fields to protect sit in Body)
 					payload = &encWithInfo{Body: &encOuter{Leaf: *r.in, P: r.in}, evID: fmt.Sprintf("ev-%d", r.call)}
 				}
-				out, err := f.Process(context.Background(), &el.Event{Type: "t", Payload: payload})
+				ff := f
+				if r.other {
+					ff = other
+				}
+				out, err := ff.Process(context.Background(), &el.Event{Type: "t", Payload: payload})
 				r.ret = clock.next()
 				r.err = err
 				if out != nil {
@@ -2049,6 +2086,13 @@ func runEncryptRotateConc(rc *RunCtx) {
 			continue
 		}
 		if r.perEvent {
+			continue
+		}
+		if r.other {
+			// the second filter never rotates: its digests are under its own key, salt and info
+			if r.in.SensH != "" && r.out.SensH != indepHMAC(otherKey, []byte("other-salt"), []byte("other-info"), []byte(r.in.SensH)) {
+				rc.Failf("C16.wrong-protection", "second-filter", "a value HMAC-ed by the second filter is not HMAC-SHA256 under THAT filter's key, salt and info")
+			}
 			continue
 		}
 		// versions that may be in force during [call, ret]
